@@ -264,6 +264,44 @@ def rec_samples(vc, rid, name, base, tr, rng, n):
     return r
 
 
+def rec_seeded_cache(vc, rid, name, base, tr):
+    """the lazily drawn sample honours the model's random_state (D60): two identically seeded objects give the same
+    empirical cdf, another seed a different one"""
+    r = dict(id=rid, kind="samples", exc="", name=name + " seeded sample cache")
+    try:
+        x = np.array([[2.0, 6.0], [3.0, 7.5]])
+        e = []
+        for rs in (42, 42, 43):
+            t = tmodel(vc, copy.deepcopy(base), tr, rs=rs)
+            e.append(np.asarray(t.empirical_cdf(x), dtype=float))
+        r["equal"] = bool(np.array_equal(e[0], e[1]) and not np.array_equal(e[0], e[2]))
+        r["shapeok"] = bool(e[0].shape == (2,))
+    except Exception as ex:  # noqa
+        r["exc"] = f"{type(ex).__name__}: {ex}"[:200]
+    return r
+
+
+def rec_cond_size(vc, rid, name, base, tr):
+    """conditional_sample returns exactly n values, and warns only if it could not collect them, whatever max_iter (D61)"""
+    r = dict(id=rid, kind="samples", exc="", name=name + " conditional_sample size")
+    try:
+        t = tmodel(vc, base, tr)
+        hs = float(base.distributions[0].icdf(0.5))
+        ok, quiet = True, True
+        for max_iter in (1, 2, 3, 5, 100):
+            with warnings.catch_warnings(record=True) as wl:
+                warnings.simplefilter("always")
+                smp = np.asarray(t.conditional_sample(1000, 1, [hs], random_state=1, max_iter=max_iter))
+            warned = any("Max iterations" in str(w.message) for w in wl)
+            ok = ok and (len(smp) == 1000 or (len(smp) < 1000 and warned))
+            quiet = quiet and not (len(smp) >= 1000 and warned)
+        r["equal"] = bool(quiet)
+        r["shapeok"] = bool(ok)
+    except Exception as ex:  # noqa
+        r["exc"] = f"{type(ex).__name__}: {ex}"[:200]
+    return r
+
+
 def rec_cond(vc, rid, name, base, tr, q, rng):
     t = tmodel(vc, base, tr)
     r = dict(id=rid, kind="cond", exc="", name=name, q=str(q), hooked=False, k=-1, atfloor=False, fat=False, fnext=True,
@@ -530,6 +568,8 @@ def run(ctx):
     for name, base, tr in models:
         add(rec_pushforward(vc, nid(), name, base, tr, rng, ctx.quick))
         add(rec_samples(vc, nid(), name, base, tr, rng, int(rng.choice([1, 10, 1000, 100000]))))
+    add(rec_seeded_cache(vc, nid(), models[ctx.seed % 2][0], models[ctx.seed % 2][1], models[ctx.seed % 2][2]))
+    add(rec_cond_size(vc, nid(), models[0][0], models[0][1], models[0][2]))
     # sizes above one million (block-wise drawing must not restart the seeded stream)
     for name, base, tr in models[:ctx.pick(1, 3)]:
         add(rec_samples(vc, nid(), name + " n>1e6", base, tr, rng, ctx.pick(1200000, 3500000)))
